@@ -101,8 +101,8 @@ func scC05(r *Run) {
 }
 
 func init() {
-	register(&PropDef{ID: "C04", Quick: 1500, Thorough: 30000, Profiles: []ProfileDef{{Name: "seq", Share: 1, Sc: scC04}}})
-	register(&PropDef{ID: "C05", Quick: 2400, Thorough: 48000, Profiles: []ProfileDef{
+	register(&PropDef{ID: "C04", Quick: 1500, Thorough: 60000, Profiles: []ProfileDef{{Name: "seq", Share: 1, Sc: scC04}}})
+	register(&PropDef{ID: "C05", Quick: 2400, Thorough: 60000, Profiles: []ProfileDef{
 		{Name: "seq", Share: 5, Sc: scC05},
 		{Name: "held", Share: 1, Sc: scC05Held},
 	}})
@@ -145,9 +145,9 @@ func scC03(r *Run) {
 }
 
 func init() {
-	register(&PropDef{ID: "C01", Quick: 3000, Thorough: 80000, Profiles: []ProfileDef{{Name: "seq", Share: 1, Sc: scC01}}})
-	register(&PropDef{ID: "C02", Quick: 3000, Thorough: 80000, Profiles: []ProfileDef{{Name: "seq", Share: 1, Sc: scC02}}})
-	register(&PropDef{ID: "C03", Quick: 3000, Thorough: 80000, Profiles: []ProfileDef{{Name: "seq", Share: 1, Sc: scC03}}})
+	register(&PropDef{ID: "C01", Quick: 3000, Thorough: 300000, Profiles: []ProfileDef{{Name: "seq", Share: 1, Sc: scC01}}})
+	register(&PropDef{ID: "C02", Quick: 3000, Thorough: 300000, Profiles: []ProfileDef{{Name: "seq", Share: 1, Sc: scC02}}})
+	register(&PropDef{ID: "C03", Quick: 3000, Thorough: 300000, Profiles: []ProfileDef{{Name: "seq", Share: 1, Sc: scC03}}})
 }
 
 func scC16(r *Run) {
@@ -183,8 +183,8 @@ func scC19(r *Run) {
 }
 
 func init() {
-	register(&PropDef{ID: "C16", Quick: 2000, Thorough: 40000, Profiles: []ProfileDef{{Name: "seq", Share: 1, Sc: scC16}}})
-	register(&PropDef{ID: "C19", Quick: 3000, Thorough: 60000, Profiles: []ProfileDef{{Name: "seq", Share: 1, Sc: scC19}}})
+	register(&PropDef{ID: "C16", Quick: 2000, Thorough: 400000, Profiles: []ProfileDef{{Name: "seq", Share: 1, Sc: scC16}}})
+	register(&PropDef{ID: "C19", Quick: 3000, Thorough: 100000, Profiles: []ProfileDef{{Name: "seq", Share: 1, Sc: scC19}}})
 }
 
 func scC18(big bool) Scenario {
@@ -219,7 +219,7 @@ func scC18(big bool) Scenario {
 }
 
 func init() {
-	register(&PropDef{ID: "C18", Quick: 400, Thorough: 6000, Profiles: []ProfileDef{
+	register(&PropDef{ID: "C18", Quick: 400, Thorough: 20000, Profiles: []ProfileDef{
 		{Name: "long", Share: 1, Sc: scC18(false)},
 		{Name: "size", Share: 1, Sc: scC18(true)},
 	}})
